@@ -27,6 +27,7 @@ DESCR = [
     (r"C08:reread-differs:.*blank_line", "a blank_line token and the text disagree (the in-memory model lost the reader shape of C08_reread_requires_shape) after the named rule"),
     (r"C08:reread-differs", "parsing the emitted text gives a token of another class / value than the in-memory model holds"),
     (r"C08:fixed-text-rejected", "the text --fix produced is rejected when read back"),
+    (r"C08:cli-report-after-fix-differs", "through the command line: the report `vsg --fix` prints differs from the report of a plain run on the file it wrote (first differing rule named)"),
     (r"C08:report-after-fix-differs", "the violations printed at the end of the fix run differ from a fresh check of the written text"),
     (r"C09:(second-fix-changes|oscillates)", "a second --fix of the text --fix has just produced changes it again"),
     (r"C18:", "the token index / a region of interest is stale when a rule reads it"),
